@@ -71,6 +71,9 @@ func init() {
 			if w.Batch == 0 {
 				c01Witness(w)
 			}
+			if w.Batch == 1 {
+				c01RootTip(w)
+			}
 			runRandomScenarios(w, []string{"C01"}, w.Pick(12, 60), func(p *ledger.Profile) { p.POverdraft = 0.35; p.PForge = 0.2 }, nil)
 			c01Truncation(w)
 		},
